@@ -345,6 +345,18 @@ func runRegCase(seed uint64, nOps int, restart bool, stats map[string]int) (V, V
 			if msg.ValidateBasic() != nil {
 				continue
 			}
+			if rng.Chance(1, 8) {
+				// the registration is the first message of a transaction whose second message fails: nothing of it may stay
+				code, _ := env.Tx(nil, func(ctx sdk.Context) error {
+					if _, err := env.Msg.SetDelegateKeys(sdk.WrapSDKContext(ctx), msg); err != nil {
+						return err
+					}
+					return fmt.Errorf("a later message of the transaction failed")
+				})
+				stats["setkeys_in_failed_tx"]++
+				record(L(I(11)), code)
+				continue
+			}
 			code, _ := env.Tx(nil, func(ctx sdk.Context) error {
 				_, err := env.Msg.SetDelegateKeys(sdk.WrapSDKContext(ctx), msg)
 				return err
